@@ -214,6 +214,7 @@ func (s *Sim) run(res *Result) {
 	plan := s.Plan
 	cfg := &plan.Cfg
 	w := simrt.NewWorld(plan.Seed, cfg.Sched)
+	w.Beat = func() { fmt.Println("HB") }
 	s.W = w
 	w.TraceOn = os.Getenv("VERIF_HIST") == "1"
 	defer w.Close()
